@@ -515,8 +515,9 @@ fn size_case(ch: &mut Choices<'_>, st: &mut Stats) -> CaseResult {
                 if limit == usize::MAX {
                     return Err(Fail::new("rejected-at-default-size-limit", format!("rejected with the default settings:\n{e}"), show()));
                 }
-                if !e.to_ascii_lowercase().contains("size limit") {
-                    return Err(Fail::new("size-rejection-text", format!("the rejection does not mention the size limit:\n{e}"), show()));
+                // wording is not part of the property: recorded only
+                if e.to_ascii_lowercase().contains("size limit") {
+                    st.class("size-rejection-names-the-limit");
                 }
             }
         }
@@ -570,11 +571,11 @@ pub fn run(run: &Run) {
          regex-invalid: fixed and derived invalid patterns must be Err, never a panic; \
          wildcards: EVERY pattern over {a, B, *, \\, ?} up to length 6 (quick) / 8 (thorough) x {quoted, quoted-all-escaped, raw, raw##} x {wildcard, strict wildcard} \
          x star limits {default, 0..4}: Err exactly for invalid escape / trailing backslash / ** / stars > limit, AST rhs == pattern bytes, accepted ones run on ~25 values \
-         against the reference; wildcards-random: longer patterns over a wider byte alphabet; regex-size-limit: x{n}, [a-z]{n}, (ab|cd){n} x 10 limits (monotone, default accepts, text names the size limit); \
+         against the reference; wildcards-random: longer patterns over a wider byte alphabet; regex-size-limit: x{n}, [a-z]{n}, (ab|cd){n} x 10 limits (monotone, default accepts); \
          non-trivial = regex with a class or repetition whose value set has a match and a non-match | wildcard with >= 1 star and a value matching only case-insensitively | size pattern with both outcomes",
     );
     run.assume("nested character classes and a leading ] in a class are not generated (the quoted scanner's treatment is unspecified)");
-    run.assume("regex size thresholds and error wording are not asserted, only monotonicity and that the text names the size limit");
+    run.assume("regex size thresholds and error wording are not asserted, only monotonicity and acceptance at the default limit");
     let subs = subs();
     run_regressions(run, &subs);
     let f = |n: &str| find_sub(&subs, n).unwrap();
